@@ -221,6 +221,13 @@ def scenarios(ctx):
     S.append(TreeScenario("seg-rc", seg("S", "Muss [1] U [2]", [ft("D1", "alpha", ["901"], rc="1"), ft("D2", "beta", ["902"], rc="3", mark="Soll"), ft("D3", "gamma", ["902"], rc="2", mark="Kann")]),
                           rc, {"901": "alpha", "902": "gamma"}))
     S.append(TreeScenario("seg-none", seg("S", "Muss", [ft("D1", None, ["904"]), ft("D2", "beta", ["904"]), ft("D3", "", ["901"])]), rc, {"904": None, "901": ""}))
+    # optional segments, elements left empty next to elements whose own input violates their format constraint
+    S.append(TreeScenario("seg-optional-last-empty", seg("S", "Kann", [ft("D1", "alpha", ["901"]), ft("D2", "beta", ["902"]), ft("D3", None, ["903"])]), rc,
+                          {"901": "zz", "902": "beta", "903": None}))
+    S.append(TreeScenario("seg-optional-first-empty", seg("S", "Kann [1]", [ft("D1", "", ["901"]), ft("D2", "beta", ["902"]), ft("D3", "gamma", ["903"])]), rc,
+                          {"901": "", "902": "zz", "903": "gamma"}))
+    S.append(TreeScenario("group-optional", grp("G", "Kann", [seg("S1", "Muss", [ft("D1", "alpha", ["901"]), ft("D2", "", ["902"])]),
+                                                              seg("S2", "Soll [2]", [ft("D3", "gamma", ["901"]), ft("D4", None, ["902"])])]), rc, {"901": "gamma", "902": "zz"}))
     S.append(TreeScenario("seg-packages", seg("S", "Muss [5P] O [1]", [ft("D1", "alpha", [], pkg="4P"), ft("D2", "beta", ["901"]), ft("D3", "gamma", [], pkg="4P")]), rc, {"901": "gamma"}))
     S.append(TreeScenario("group", grp("G", "Muss [1]", [seg("S1", "Muss", [ft("D1", "alpha", ["901"]), ft("D2", "beta", ["902"])]),
                                                           seg("S2", "Soll [2]", [ft("D3", "gamma", ["901"]), ft("D4", "delta", ["902"])])]), rc, {"901": "gamma", "902": "beta"}))
@@ -235,6 +242,8 @@ def scenarios(ctx):
     for i in range(4 if ctx.quick else 40):
         n = rng.randint(2, 5)
         texts = rng.sample(["alpha", "beta", "gamma", "delta", "eps", "zeta", "eta"], n)
+        if rng.random() < 0.4:   # an element left empty (often the last one)
+            texts[rng.choice((-1, -1, 0, rng.randrange(n)))] = rng.choice((None, ""))
         els = []
         for j, t in enumerate(texts):
             fcs = rng.sample(["901", "902", "903"], rng.randint(1, 2))
@@ -242,7 +251,7 @@ def scenarios(ctx):
             if rng.random() < 0.2:
                 els.append(vp(f"V{j}", rng.choice(["A", "ZZ", None]), [("A", "X [1]"), ("B", "X [3]")]))
         expected = {k: rng.choice(texts) for k in ("901", "902", "903")}
-        S.append(TreeScenario(f"rand{i}", seg("S", rng.choice(["Muss", "Muss [1]", "Soll [2]"]), els), rc, expected))
+        S.append(TreeScenario(f"rand{i}", seg("S", rng.choice(["Muss", "Muss [1]", "Soll [2]", "Kann", "Kann [2]"]), els), rc, expected))
     return S
 
 
